@@ -5,7 +5,10 @@
   newlines in `src[0..i]`, column = number of characters after the last newline in `src[0..i]`.
 -/
 import SeedProofs.Lemmas.Scan
+import SeedProofs.Lemmas.C18NodePosSrc
 namespace Seed.C18
+
+-- audit: Seed.node_pos Seed.node_pos_expr Seed.node_pos_src Seed.locOK_is_posOf Seed.posAll Seed.parseExpr_node_pos Seed.parseStmts_node_pos
 open Seed
 
 /-! ### token positions -/
